@@ -135,6 +135,21 @@ def main():
         drv = common.Driver()
         rng = random.Random(seed * 1000003 + int(pid[1:]))
         ctx = dict(rec=rec, drv=drv, rng=rng, tier=tier, seed=seed)
+        # an exception that escapes from library code at a place where the module expected a result (valid data, no `impl` wrapper)
+        # is a failing input of the property, not a crash of the harness; an exception raised by harness code itself stays a crash
+        plain_run_case = mod.run_case
+
+        def guarded_run_case(ctx_, case_):
+            try:
+                return plain_run_case(ctx_, case_)
+            except Exception as ex:  # noqa: BLE001
+                frames = traceback.extract_tb(ex.__traceback__)
+                origin = next((f for f in reversed(frames) if "/harness/" in f.filename or "/compmec/nurbs/" in f.filename), None)
+                if origin is None or "/compmec/nurbs/" not in origin.filename:
+                    raise
+                rec.violation("library raised %s where a result was expected" % type(ex).__name__, case_,
+                              observed=str(ex)[:300], at="%s:%s" % (origin.filename.split("/compmec/nurbs/")[-1], origin.lineno))
+        mod.run_case = guarded_run_case
         if replay:
             data = json.load(open(replay))
             for v in data.get("violations", []):
